@@ -143,10 +143,26 @@ PROPS = {
                 "process with watchdog: named interleavings (both see stale, one builds while the other waits, late reader, serial) for N=2,3 "
                 "on 7 scenarios (index x ContainsPointQuery / CrossingEdgeQuery / EdgeQuery, loop point / cell, polygon point / relation), "
                 "ALL schedules of length <= 8 over two workers for idx-cpq (thorough: three workers, length <= 7), random schedules N=2..6, "
-                "and unforced stress runs with 4..32 goroutines; every answer compared with a serial run; events compared with the Lean "
-                "protocol model on the same schedule. non-trivial = at least two workers passed the status check before the store of fresh "
-                "(applies >= 2) or a worker was BLOCKED; distinct = distinct (scenario, N, schedule)",
-        "nontrivial": lambda l: "BLOCKED" in l or any(t.startswith("applies=") and t[8:].isdigit() and int(t[8:]) >= 2 for t in l.split()),
+                "unforced stress runs with 4..32 goroutines; every answer compared with a serial run; events compared with the Lean "
+                "protocol model on the same schedule (which blocked waiter obtains the mutex is the implementation's choice; the model "
+                "checks that it is a legal one and follows it). "
+                "SOAK scenarios (harness/c14soak.go, 17 kinds, 8 goroutines, thorough also 16 and 3 seeds; ~1.2 s wall each, 10^2..10^5 queries "
+                "per run): N goroutines hammer ONE shared object whose index is not yet built, each goroutine near a DIFFERENT part of it "
+                "(its own loop of a many-loop polygon, its own arc of a big loop, its own shapes of an index), EVERY answer compared with a "
+                "serial run on a separately built identical object, a recovered panic = violation (outcome=PANIC), all under the race "
+                "detector.  Kinds cover both sides of every internal size threshold: loops with 24 / 400 vertices (ContainsPoint brute force "
+                "<= 32 / index), point+cell queries and Contains/Intersects/BoundaryEqual in both directions against coarse partners (one "
+                "partner cell covers >= 20 edges of the shared loop: CrossingEdgeQuery path of loopCrosser.hasCrossing), fine, nested and "
+                "disjoint partners; polygons with 24 vertices (brute force) / >= 32, with 1 loop, 3 and 6 loops (linear search in "
+                "Edge/ChainPosition) and 16 loops (cumulativeEdges search), point, cell and polygon-polygon relations, one 400-vertex shell; "
+                "indexes with 20 edges (below the EdgeQuery brute-force thresholds 25/30) and with ~700 edges holding a 16-loop and a 6-loop "
+                "polygon, loops, a polyline and points, queried by ContainsPointQuery, CrossingEdgeQuery, closest/furthest EdgeQuery with "
+                "point / edge / cell targets; a ShapeIndex shared as the TARGET of MinDistanceToShapeIndexTarget (own target and query object "
+                "per goroutine) in the combinations big/small, small/big, big/big. "
+                "non-trivial = at least two workers passed the status check before the store of fresh (applies >= 2), or a worker was "
+                "BLOCKED, or a soak line; distinct = distinct (scenario, N, schedule or seed)",
+        "nontrivial": lambda l: "BLOCKED" in l or l.startswith("c14 soak-") or
+                                any(t.startswith("applies=") and t[8:].isdigit() and int(t[8:]) >= 2 for t in l.split()),
         "trusted_base": ["Go memory model for sync/atomic and sync.RWMutex as encoded in S2.Protocol (sequentially consistent atomics, "
                          "interleaving semantics, non-atomic accesses split in begin/end)",
                          "that the Go functions touch only the modelled shared state, and that applyUpdatesInternal with nothing pending "
@@ -397,8 +413,8 @@ PROPS = {
                     "IndexWalkAgrees, ExactRelationIsPointSet, PolygonComplementLaws are stated as def : Prop, not proved"],
     },
     "C12": {
-        "generators": [("c12", 1500, 20000)],
-        "modules": ["S2.CellM", "S2.STUV", "S2.Hilbert", "S2.CellID", "S2.F64", "S2.Exact"],
+        "generators": [("c12", 1500, 20000), ("c06pc", 2000, 40000)],
+        "modules": ["S2.CellM", "S2.STUV", "S2.Hilbert", "S2.CellID", "S2.F64", "S2.Exact", "S2.PaddedCellM"],
         "rule": "cells: exhaustive levels 0-2 (thorough 0-4) plus structured random cells of every level (cube corners, face edges, "
                 "the four cells around each pole, coarse grid lines, uniform); per cell: Children vs direct construction (cellch), RectBound/"
                 "CapBound on 4 vertices + 4 edge midpoints + uv centre + the |u|,|v|-minimal boundary points + random edge/interior points, "
